@@ -107,7 +107,7 @@ func (session *Session) ChipAuthEvidenceToCbor() ([]byte, error) {
 
 func NewChipAuthEvidenceFromCbor(data []byte) (*ChipAuthEvidenceBundle, error) {
 	var env cborEnvelope
-	if err := cbor.Unmarshal(data, &env); err != nil {
+	if err := cborStrict.Unmarshal(data, &env); err != nil {
 		return nil, fmt.Errorf("[NewChipAuthEvidenceFromCbor] cbor.Unmarshal(envelope) error: %w", err)
 	}
 
@@ -127,7 +127,7 @@ func NewChipAuthEvidenceFromCbor(data []byte) (*ChipAuthEvidenceBundle, error) {
 	}
 
 	var bundle cborChipAuthBundle
-	if err := cbor.Unmarshal(env.Payload, &bundle); err != nil {
+	if err := cborStrict.Unmarshal(env.Payload, &bundle); err != nil {
 		return nil, fmt.Errorf("[NewChipAuthEvidenceFromCbor] cbor.Unmarshal(bundle) error: %w", err)
 	}
 
